@@ -179,6 +179,11 @@ def gen_case(rnd, spec):
         gen["payloads"].append(succ)
         gen["payloads"].append({"id": "mid%d" % m, "flavour": "trio", "when": "queued", "program": [["block"]],
                                 "cleanup": {"kind": "shielded", "dur": rnd.choice([0.2, 0.3, 0.5]), "handover_mid": succ["id"]}})
+    # a guardian: a trio payload whose shielded cleanup requests an orderly shutdown of the runtime (from a helper thread) and waits for it
+    if not async_mode and not meta_mode and rnd.random() < 0.12:
+        gen["payloads"].append({"id": "guardian", "flavour": "trio", "when": "queued", "program": [["block"]],
+                                "cleanup": {"kind": "shielded", "dur": rnd.choice([0.05, 0.1]), "shutdown_mid": True}})
+        gen.setdefault("tags", []).append("guardian")
     # keep-alive payloads: whenever one ends (here: is cancelled) it adopts a fresh copy of itself
     if not async_mode and rnd.random() < 0.15:
         for fl in rnd.sample(list(common.COROUTINE), rnd.randint(1, 2)):
@@ -343,6 +348,8 @@ def judge(case, run, result, suspects_out=None):
             problems.append(("trigger %s: adopt(%s) inside the cleanup of %s payload %s raised %s(%s): the rest of that cleanup is lost"
                              % (trigger, e["pid"], specs[e["by"]]["flavour"], e["by"], e["exc"], e["msg"]), mech))
             break
+    if "guardian" in gen.get("tags", []) and run.of("return", gen=0, op="shutdown", by="guardian/cleanup"):
+        result.count("terminations_during_which_a_cleanup_requested_a_shutdown")
     if "keepers" in gen.get("tags", []) and [e for e in run.of("cancelled", gen=0) if str(e.get("pid", "")).startswith("keeper_")]:
         result.count("terminations_with_self_renewing_payloads")
     if case["meta"].get("cross") and run.of("call", gen=0, op="execute"):
@@ -447,7 +454,7 @@ def run_shard(spec):
 def finish(total, tier):
     need = ["running_coroutine_payloads_judged", "payloads_cancelled_and_cleaned_asyncio", "payloads_cancelled_and_cleaned_trio",
             "shielded_cleanups_finished_first", "terminations_with_blocked_threads", "payloads_adopted_during_termination_started", "scenarios_driving_metarunner_directly", "dispatcher_workers_judged", "private_waiters_cancelled_properly",
-            "async_cleanups_finished_first", "shielded_cleanups_that_adopt_half_way_finished_first", "stubborn_payloads_cancelled_until_done_asyncio", "stubborn_payloads_cancelled_until_done_trio", "process_exits_with_blocked_thread_payloads_checked", "terminations_beside_trio_payloads_calling_into_asyncio", "cleanups_that_call_into_the_asyncio_runner", "terminations_with_self_renewing_payloads"]
+            "async_cleanups_finished_first", "shielded_cleanups_that_adopt_half_way_finished_first", "stubborn_payloads_cancelled_until_done_asyncio", "stubborn_payloads_cancelled_until_done_trio", "process_exits_with_blocked_thread_payloads_checked", "terminations_beside_trio_payloads_calling_into_asyncio", "cleanups_that_call_into_the_asyncio_runner", "terminations_with_self_renewing_payloads", "terminations_during_which_a_cleanup_requested_a_shutdown"]
     need += ["trigger_" + t for t in TRIGGERS if not t.startswith("systemexit")]
     for name in need:
         if not total.counters.get(name) and not total.violations:
